@@ -145,7 +145,7 @@ type contResult struct {
 }
 
 // continuation replays the prefix and then runs one constructed timely continuation.
-func continuation(p qbftsim.Prog, alt int, forward bool) contResult {
+func continuation(p qbftsim.Prog, alt int, forward bool, lockstep bool) contResult {
 	var cr contResult
 	s := qbftsim.New(p)
 	onEv := func(ev *qbftsim.Event) bool {
@@ -176,7 +176,7 @@ func continuation(p qbftsim.Prog, alt int, forward bool) contResult {
 	}
 	cr.lagging = len(rounds) >= 2
 	cr.twoPrepared = len(roots) >= 2
-	s.Logf("---- switch point (alt %d, forward accepted certificates=%v) ----", alt, forward)
+	s.Logf("---- switch point (alt %d, forward accepted certificates=%v, lock-step timers=%v) ----", alt, forward, lockstep)
 	s.ForwardAccepted = forward
 	var order func([]*qbftsim.PoolMsg) []*qbftsim.PoolMsg
 	switch {
@@ -262,7 +262,9 @@ func continuation(p qbftsim.Prog, alt int, forward bool) contResult {
 			break
 		}
 		for _, id := range s.Correct {
-			if inst := s.Inst(id); inst != nil && !inst.State.Decided && inst.State.Round == min {
+			// absolute deadlines (slot-anchored roles): operators in the lowest round fire first.
+			// relative timers (proposer-type roles): every undecided operator's timer runs at the same pace (lock-step).
+			if inst := s.Inst(id); inst != nil && !inst.State.Decided && (lockstep || inst.State.Round == min) {
 				onEv(s.Timeout(id, ""))
 			}
 		}
@@ -299,8 +301,25 @@ func continuation(p qbftsim.Prog, alt int, forward bool) contResult {
 }
 
 func runCont(c ContProg) *prog.Result {
+	r := runContPolicy(c, false)
+	if r.Fail != nil || r.Discard {
+		return r
+	}
+	// Information only: the same prefix under lock-step timeouts (relative timers whose phases coincide exactly).
+	// Not judged: with one operator a full round ahead and no f+1 set to pull the others forward, lock-step keeps
+	// the gap until the slow rounds on the unchanged tree too; the statement's continuation is existential and the
+	// simulator does not model timer phases.
+	if r2 := runContPolicy(c, true); r2.Fail != nil {
+		r.Classes = append(r.Classes, "info:lock-step-timers-do-not-decide")
+	} else {
+		r.Classes = append(r.Classes, "info:lock-step-timers-also-decide")
+	}
+	return r
+}
+
+func runContPolicy(c ContProg, lockstep bool) *prog.Result {
 	res := &prog.Result{}
-	cr := continuation(c.Prefix, 0, false)
+	cr := continuation(c.Prefix, 0, false, lockstep)
 	if cr.stepFail != nil {
 		res.Fail = &prog.Failure{Sig: cr.stepFail.Sig, Msg: cr.stepFail.Msg + "\nlog:\n" + cr.log}
 		return res
@@ -309,7 +328,7 @@ func runCont(c ContProg) *prog.Result {
 	first := cr
 	if !cr.ok {
 		for _, a := range append([]int{1, 2, 3}, c.Alts...) {
-			alt := continuation(c.Prefix, a, false)
+			alt := continuation(c.Prefix, a, false, lockstep)
 			tried++
 			if alt.ok {
 				cr = alt
@@ -329,7 +348,7 @@ func runCont(c ContProg) *prog.Result {
 			// listed known finding: excluded by letting the pubsub layer of the operators that accepted a certificate
 			// forward it (gossip), then the search goes on behind it
 			prog.KnownHit("TestPropContinuation", sig)
-			fw := continuation(c.Prefix, 0, true)
+			fw := continuation(c.Prefix, 0, true, lockstep)
 			if fw.stepFail != nil {
 				res.Fail = &prog.Failure{Sig: fw.stepFail.Sig, Msg: fw.stepFail.Msg + "\nlog:\n" + fw.log}
 				return res
@@ -342,7 +361,7 @@ func runCont(c ContProg) *prog.Result {
 			res.NonTrivial = true
 			return res
 		}
-		res.Fail = prog.Failf(sig, "no decision in %d constructed timely continuations (N=%d byz=%v): %s\nlog of the canonical one:\n%s", tried, c.Prefix.N, c.Prefix.Byz, first.why, first.log)
+		res.Fail = prog.Failf(sig, "no decision in %d constructed timely continuations (N=%d byz=%v, lock-step timers=%v): %s\nlog of the canonical one:\n%s", tried, c.Prefix.N, c.Prefix.Byz, lockstep, first.why, first.log)
 		return res
 	}
 	res.NonTrivial = (first.lagging || first.prepared) && !cr.nearCutoff
